@@ -21,9 +21,13 @@ const fs = require('fs');
 const inputs = JSON.parse(fs.readFileSync(0, 'utf8'));
 const out = [];
 for (const c of inputs.cases) {
-  const r = categorizeAmount(c.amount, c.tags);
-  out.push({cat: r, excl: isExcludedFromSpending(c.tags), inc: isIncome(c.tags), tr: isTransfer(c.tags),
-            inv: isInvestment(c.tags), low: Array.from(getTagsLower(c.tags)).sort()});
+  try {
+    const r = categorizeAmount(c.amount, c.tags);
+    out.push({cat: r, excl: isExcludedFromSpending(c.tags), inc: isIncome(c.tags), tr: isTransfer(c.tags),
+              inv: isInvestment(c.tags), low: Array.from(getTagsLower(c.tags)).sort()});
+  } catch (e) {
+    out.push({error: String(e)});       // the script throws where the command line computes a value
+  }
 }
 const cf = inputs.flows.map(f => calculateCashFlow(f[0], f[1], f[2]));
 let lowerDiffs = [];
@@ -76,6 +80,9 @@ def compare(cases, flows, codepoints):
         O.case((c['amount'], tuple(c['tags']) if c['tags'] is not None else None))
         py = cl.categorize_amount(c['amount'], c['tags'])
         w = {'amount': c['amount'], 'tags': c['tags']}
+        if 'error' in j:
+            O.fail('js_classification_throws', w, {PY2JS[k]: float(v) for k, v in py.items()}, j['error'], 'the classification block of spending_report.js under node')
+            continue
         pyv = {PY2JS[k]: float(v) for k, v in py.items()}
         jsv = {k: float(v) for k, v in j['cat'].items()}
         if pyv != jsv:
@@ -184,6 +191,10 @@ def main():
     amounts = [-5.0, -0.25, 0.0, 0.25, 2.5, 100.0, 1e6]
     maxlen = 3 if O.tier == 'quick' else 4
     cases = []
+    # amounts that are not whole cents (parse_amount keeps them as written), with no tag and with each special tag
+    for a in (12.345, 0.004, 1.005, -0.005, 2.675, 1e-9):
+        for tags in ([], ['income'], ['Transfer'], ['investment'], ['x'], None):
+            cases.append({'amount': a, 'tags': tags})
     for n in range(0, maxlen + 1):
         for tags in itertools.permutations(pool, n):
             for a in amounts:
